@@ -132,6 +132,7 @@ func main() {
 	run.Floor("refusal_c", 40)
 	run.Floor("proof_roundtrip", 5000)
 	run.Floor("own_writer_bodies", 50)
+	run.Floor("own_writer_bodies_concurrent", 50)
 	run.Floor("diff_definite", 50000)
 
 	run.Units("roundtrip", run.Pick(64, 1024), 0, func(unit int64, r *rand.Rand) {
@@ -370,7 +371,8 @@ func ownWriter(run *ev.Run) {
 	b, _ := json.Marshal(cases)
 	_ = os.WriteFile(in, b, 0o644)
 	cmd := exec.Command(bin, "-test.run", "^TestVerifCaptureBodies$", "-test.count=1")
-	cmd.Env = append(os.Environ(), "VERIF_CAPTURE_IN="+in, "VERIF_CAPTURE="+out)
+	cout := filepath.Join(dir, "own-out-concurrent.json")
+	cmd.Env = append(os.Environ(), "VERIF_CAPTURE_IN="+in, "VERIF_CAPTURE="+out, "VERIF_CAPTURE_CONCURRENT="+cout)
 	if o, err := cmd.CombinedOutput(); err != nil {
 		run.Inconclusive("feedbastion capture failed: " + err.Error() + ": " + string(o[:min(len(o), 300)]))
 		return
@@ -395,4 +397,34 @@ func ownWriter(run *ev.Run) {
 		}
 	}
 	run.Sample(map[string]any{"part": "own_writer", "body": string(bodies[0][:min(len(bodies[0]), 160)])})
+	// concurrent pass: eight goroutines share the one client value, as the feeders of cmd/feedbastion do;
+	// what reached the server must be, as a multiset, exactly the bodies of the sequential pass
+	var cbodies [][]byte
+	cb, err := os.ReadFile(cout)
+	if err != nil || json.Unmarshal(cb, &cbodies) != nil {
+		run.Inconclusive("feedbastion concurrent capture unreadable")
+		return
+	}
+	want := map[string]int{}
+	for _, b := range bodies {
+		want[string(b)]++
+	}
+	missing, foreign := 0, 0
+	var example []byte
+	for _, b := range cbodies {
+		run.Count("evaluations")
+		run.Count("own_writer_bodies_concurrent")
+		if want[string(b)] > 0 {
+			want[string(b)]--
+		} else {
+			foreign++
+			example = b
+		}
+	}
+	for _, n := range want {
+		missing += n
+	}
+	if foreign > 0 || missing > 0 || len(cbodies) != len(bodies) {
+		run.Violate("own_writer_concurrent_bodies_differ", fmt.Sprintf("with 8 Update calls in flight on one client, %d of %d bodies that reached the server are not what the writer produces for its input one at a time (%d expected bodies never arrived)", foreign, len(cbodies), missing), -1, map[string]any{"example_b64": base64.StdEncoding.EncodeToString(example)})
+	}
 }
